@@ -82,6 +82,19 @@ pub fn items(quick: bool) -> Vec<Box<dyn Fn() -> Vec<Item> + Send + Sync>> {
         ("p(a). p(b). p(c). p(d).", "p(d). p(c). p(b). p(a)."),
         ("p(a). p(a__s). a.", "a. p(a__s). p(a)."),
         ("p(a). p(_a). p(a_).", "p(_a). p(a_). p(a)."),
+        // predicates s and s__s next to symbols s, s0, sZ, s__s (renaming / ordering of mangled names)
+        ("a :- q(a), q(aZ). a__s :- a.", "a__s :- a. a :- q(aZ), q(a)."),
+        ("a :- q(a), q(a0), q(aZ), q(a_). a__s :- a.", "a__s :- a. a :- q(a_), q(aZ), q(a0), q(a)."),
+        ("a. a__s. q(a). q(a__s). q(a0).", "q(a0). q(a__s). q(a). a__s. a."),
+        ("b :- q(b), q(b0). b__s :- q(b__s).", "b__s :- q(b__s). b :- q(b0), q(b)."),
+        // the same with symbols named like the h-/t-copies (strong equivalence prefixes predicates)
+        ("a :- q(ha), q(haZ). a__s :- a.", "a__s :- a. a :- q(haZ), q(ha)."),
+        ("a :- q(ta), q(ta0), q(ta_). a__s :- a.", "a__s :- a. a :- q(ta_), q(ta0), q(ta)."),
+        ("a. q(ha). q(ha__s). q(ha0).", "q(ha0). q(ha__s). q(ha). a."),
+        // symbols named like h-/t-copies, in every comparison position
+        ("p. q(X) :- r(X), tp != X.", "q(X) :- r(X), tp != X. p."),
+        ("p. q(X) :- r(X), X != hp, hp < X.", "q(X) :- r(X), hp < X, X != hp. p."),
+        ("r. q(X) :- s(X), r != X, X = r.", "q(X) :- s(X), X = r, r != X. r."),
     ] {
         let (l, r) = (l.to_string(), r.to_string());
         v.push(Box::new(move || {
@@ -194,14 +207,66 @@ fn check_c09(run: &Run, it: &Item, p: &Problem) {
     }
 }
 
-/// denotation of a problem's symbol constants: `s__s` -> `s` when the problem has a 0-ary predicate `s`
-fn denotation(p: &Problem) -> std::collections::HashMap<String, String> {
+/// symbols of the input texts of an item (programs, specification, user guide, outline)
+fn input_symbols(desc: &Value) -> Vec<String> {
+    use anthem::syntax_tree::asp::mini_gringo as asp;
+    let mut out: Vec<String> = vec![];
+    let mut add = |x: String| {
+        if !out.contains(&x) {
+            out.push(x)
+        }
+    };
+    let (texts, spec): (Vec<String>, bool) = if !desc["task"].is_null() {
+        let t = &desc["task"];
+        (
+            ["left", "right", "user_guide", "proof_outline"].iter().map(|k| t[*k].as_str().unwrap_or("").to_string()).collect(),
+            t["left_is_spec"].as_bool().unwrap_or(false),
+        )
+    } else {
+        (vec![desc["left"].as_str().unwrap_or("").to_string(), desc["right"].as_str().unwrap_or("").to_string()], false)
+    };
+    for (i, txt) in texts.iter().enumerate() {
+        let as_program = i == 1 || (i == 0 && !spec);
+        if as_program && i < 2 {
+            if let Ok(p) = txt.parse::<asp::Program>() {
+                for c in p.function_constants() {
+                    add(c);
+                }
+            }
+        } else if i == 2 {
+            if let Ok(u) = txt.parse::<fol::UserGuide>() {
+                for f in u.formulas() {
+                    for c in f.formula.symbols() {
+                        add(c);
+                    }
+                }
+            }
+        } else if let Ok(sp) = txt.parse::<fol::Specification>() {
+            for f in &sp.formulas {
+                for c in f.formula.symbols() {
+                    add(c);
+                }
+            }
+        }
+    }
+    out
+}
+
+/// denotation of a problem's symbol constants, derived from the INPUT: a constant `c` stands
+/// for the input symbol `s` with c = s or c = s followed by one or more `__s` (the clash
+/// renaming); a constant that is itself an input symbol stands for itself
+fn denotation(p: &Problem, input: &[String]) -> std::collections::HashMap<String, String> {
     let mut m = std::collections::HashMap::new();
-    let preds: Vec<String> = p.predicates().into_iter().filter(|q| q.arity == 0).map(|q| q.symbol).collect();
-    for s in p.symbols() {
-        if let Some(base) = s.strip_suffix("__s") {
-            if preds.contains(&base.to_string()) {
-                m.insert(s.clone(), base.to_string());
+    for c in p.symbols() {
+        if input.contains(&c) {
+            continue;
+        }
+        let mut base = c.as_str();
+        while let Some(b) = base.strip_suffix("__s") {
+            base = b;
+            if input.iter().any(|s| s == base) {
+                m.insert(c.clone(), base.to_string());
+                break;
             }
         }
     }
@@ -212,7 +277,22 @@ fn check_c12(run: &Run, it: &Item, p: &Problem) {
     let text = p.to_string();
     // (1) symbol-order axioms, recognised by their shape in the parsed TFF text (not by name):
     // an axiom p__less__(f__symbolic__(A), f__symbolic__(B)) between two constants
-    let den = denotation(p);
+    let input = input_symbols(&it.desc);
+    // a constant that is an input symbol AND the clash-renamed form of another input symbol stands
+    // for two symbols at once: no denotation makes sense (anthem's own TODO in rename_conflicting_symbols)
+    let props: Vec<String> = p.predicates().into_iter().filter(|q| q.arity == 0).map(|q| q.symbol).collect();
+    for c in p.symbols() {
+        if let Some(base) = c.strip_suffix("__s") {
+            if input.contains(&c) && input.iter().any(|s| s == base) && props.iter().any(|q| q == base) {
+                run.violation(
+                    "symbol_renaming:two_input_symbols_share_one_constant".into(),
+                    json!({"item": it.desc, "problem": p.name, "constant": c, "input_symbols": [base, c], "kind": "the clash renaming s -> s__s collides with an input symbol literally named s__s"}),
+                );
+                return;
+            }
+        }
+    }
+    let den = denotation(p, &input);
     let mut order: Vec<(String, String)> = vec![];
     match tff::parse_file(&text) {
         Err(_) => {
